@@ -44,6 +44,11 @@ type c07Node struct {
 	// Honoured for keys of block mappings and items of block sequences, and for the root.
 	above []string
 	pos   Pos
+	// prop: node properties written before a scalar ("&anchor " / "!!str " / both, blanks
+	// included). pos stays the position of the scalar text; propPos is where the properties start
+	// (the position the YAML library reports for such a node).
+	prop    string
+	propPos Pos
 }
 
 func c07S(v string) *c07Node { return &c07Node{kind: c07Scalar, val: v, style: c07Plain} }
@@ -138,11 +143,21 @@ func (e *c07Emitter) sp(n int) {
 	}
 }
 
+func (e *c07Emitter) scalar(n *c07Node) {
+	if n.prop != "" {
+		n.propPos = e.b.W(n.prop)
+	}
+	n.pos = e.b.W(c07ScalarText(n))
+	if n.prop == "" {
+		n.propPos = n.pos
+	}
+}
+
 func (e *c07Emitter) inlineNode(n *c07Node) {
 	e.sp(n.pad)
 	switch n.kind {
 	case c07Scalar:
-		n.pos = e.b.W(c07ScalarText(n))
+		e.scalar(n)
 	case c07Map:
 		n.pos = e.b.W("{")
 		for i, en := range n.ents {
@@ -204,7 +219,7 @@ func (e *c07Emitter) blockMap(n *c07Node, indent int, firstInline bool) {
 		if i == 0 {
 			n.pos = e.b.Pos()
 		}
-		en.k.pos = e.b.W(c07ScalarText(en.k))
+		e.scalar(en.k)
 		e.b.W(":")
 		e.value(en.v, indent)
 	}
@@ -350,6 +365,31 @@ func c07YAMLHasScalarAt(src string, p Pos, val string) bool {
 			return
 		}
 		if n.Kind == yaml.ScalarNode && n.Line == p.Line && n.Column == p.Col && n.Value == val {
+			found = true
+			return
+		}
+		for _, c := range n.Content {
+			walk(c)
+		}
+	}
+	walk(&doc)
+	return found
+}
+
+// c07YAMLHasPropScalarAt: like c07YAMLHasScalarAt for a scalar written with node properties: the
+// library must report the node at the first property, with the intended value, anchor and tag.
+func c07YAMLHasPropScalarAt(src string, p Pos, val, anchor string, tagged bool) bool {
+	var doc yaml.Node
+	if err := yaml.Unmarshal([]byte(src), &doc); err != nil {
+		return false
+	}
+	found := false
+	var walk func(n *yaml.Node)
+	walk = func(n *yaml.Node) {
+		if n == nil || found {
+			return
+		}
+		if n.Kind == yaml.ScalarNode && n.Line == p.Line && n.Column == p.Col && n.Value == val && n.Anchor == anchor && (n.Style&yaml.TaggedStyle != 0) == tagged {
 			found = true
 			return
 		}
